@@ -3,12 +3,22 @@
    case.  Extracted to OCaml (Extract.v) and also evaluated with vm_compute on samples. *)
 From RV Require Import Base.Text.
 From RV Require Tsg.SafeguardDriver.
+From RV Require Store.StoreDriver.
+From RV Require Out.OutDriver.
+From RV Require Irc.IrcDriver.
 Local Open Scope string_scope.
 
 Definition run_line (l : string) : string :=
   let f := fields l in
   let k := nth_field f 0 in
   if String.eqb k "tsg" then Tsg.SafeguardDriver.run_line f
+  else if String.eqb k "codec" then Store.StoreDriver.run_line f
+  else if String.eqb k "store" then Store.StoreDriver.run_line f
+  else if String.eqb k "out" then Out.OutDriver.run_line f
+  else if String.eqb k "outc" then Out.OutDriver.run_line f
+  else if String.eqb k "outs" then Out.OutDriver.run_line f
+  else if String.eqb k "res" then Out.OutDriver.run_line f
+  else if String.eqb k "irc" then Irc.IrcDriver.run_line f
   else "unknown-case-kind".
 
 Definition run (input : string) : string :=
